@@ -143,11 +143,10 @@ pub fn addsub_pair(t: &mut Tape, n: usize) -> (Limbs, Limbs) {
         }
         _ => gen::related(t, &a),
     };
-    if t.bool() {
-        (a, b)
-    } else {
-        (b, a)
-    }
+    let (mut a, mut b) = if t.bool() { (a, b) } else { (b, a) };
+    // a limb tied to an integer literal of the source under test (fuzzer-style dictionary)
+    gen::dict_salt(t, &mut a, &mut b);
+    (a, b)
 }
 
 /// A magnitude of exactly k bits (k = 0 gives 0): random, all ones, or only the top bit.
@@ -245,6 +244,26 @@ pub fn mul_pair(t: &mut Tape, l: usize, r: usize) -> (Limbs, Limbs, &'static str
             }
             match (to_signed(t, &ma, l), to_signed(t, &mb, r)) {
                 (Some(a), Some(b)) => Some((a, b, "gen: powers of two at a boundary")),
+                _ => None,
+            }
+        }
+        2 if t.chance(1, 3) => {
+            // exact factorisations of a boundary value +-1: T = 2^bound + {-1, 0, +1} = k * (T / k) with
+            // a small divisor k, so that the product is EXACTLY MAX, MAX + 1, |MIN| + 1, 2^B - 1, 2^B + 1
+            let bound = pick_bound(t, l, r);
+            let target = match t.below(3) {
+                0 => pow2(bound) - 1u32,
+                1 => pow2(bound) + 1u32,
+                _ => pow2(bound),
+            };
+            // divisors below 2^10 (there always is one: 1)
+            let divs: Vec<u32> = (1u32..1024).filter(|d| (&target % *d).is_zero()).collect();
+            let k = divs[t.index(divs.len())];
+            let small = BigUint::from(k);
+            let large = &target / k;
+            let (ma, mb) = if t.bool() { (small, large) } else { (large, small) };
+            match (to_signed(t, &ma, l), to_signed(t, &mb, r)) {
+                (Some(a), Some(b)) => Some((a, b, "gen: exact factorisation of a boundary +-1")),
                 _ => None,
             }
         }
